@@ -74,6 +74,27 @@ func registerTrans(proj TransformerFunc, names ...string) {
 	}
 }
 
+// defaultOrigin fills in the defaults that PROJ.4 gives to the parameters
+// that place a projection when a definition leaves them out: latitude and
+// longitude of origin 0, false easting and northing 0, scale factor 1.
+func (sr *SR) defaultOrigin() {
+	if math.IsNaN(sr.Lat0) {
+		sr.Lat0 = 0
+	}
+	if math.IsNaN(sr.Long0) {
+		sr.Long0 = 0
+	}
+	if math.IsNaN(sr.X0) {
+		sr.X0 = 0
+	}
+	if math.IsNaN(sr.Y0) {
+		sr.Y0 = 0
+	}
+	if math.IsNaN(sr.K0) {
+		sr.K0 = 1
+	}
+}
+
 // Transformers returns forward and inverse transformation functions for
 // this projection.
 func (sr *SR) Transformers() (forward, inverse Transformer, err error) {
